@@ -72,12 +72,47 @@ pub fn gen_step(s: &mut Pool2, rng: &mut Rng, ctx: &mut Ctx) -> Step {
                 slippage: None,
                 receiver: None,
                 rev: false,
+                funds_mode: 0,
             },
             adv,
             fault: Fault::None,
         };
     }
 
+    // a swap just put the pending protocol fee on the collection threshold: collect now
+    if s.want_collect {
+        s.want_collect = false;
+        return Step { actor, op: Op::Collect, adv: 0, fault: Fault::None };
+    }
+    // now and then: a swap sized so that the pending protocol fee of the ask asset lands exactly on
+    // 999 / 1000 / 1001 (the minimum collectable balance), followed by a collection
+    if s.cfg.weights[3] > 0 && s.fees_atomics[0] > 0 && rng.chance(1, 14) {
+        let side = rng.idx(2);
+        let ask = 1 - side;
+        let pending = s.fees_q(&s.pair, false).ok().and_then(|f| f.fees.iter().find(|a| a.info == s.assets[ask]).map(|a| a.amount.u128())).unwrap_or(0);
+        let target = *rng.pick(&[999u128, 1000, 1000, 1001]);
+        if pending < target {
+            let want = target - pending;
+            // protocol fee is monotone in the offer: bisection over Simulation
+            let (mut lo, mut hi) = (1u128, bal[side].min(r[side].saturating_mul(50)).max(1));
+            let fee_at = |s: &Pool2, x: u128| s.simulate(&s.pair, side, x).ok().map(|q| q.protocol_fee_amount.u128());
+            if fee_at(s, hi).map(|f| f >= want).unwrap_or(false) {
+                for _ in 0..130 {
+                    if lo >= hi { break; }
+                    let mid = lo + (hi - lo) / 2;
+                    match fee_at(s, mid) {
+                        Some(f) if f >= want => hi = mid,
+                        _ => lo = mid + 1,
+                    }
+                }
+                if fee_at(s, lo) == Some(want) {
+                    ctx.probe("swap_sized_for_fee_threshold");
+                    s.want_collect = true;
+                    return Step { actor, op: Op::Swap { side, amount: lo, belief: None, max_spread: Some("0.5".into()), to: None }, adv, fault: Fault::None };
+                }
+            }
+        }
+    }
     let kind = rng.weighted(&s.cfg.weights);
     let op = match kind {
         0 => {
@@ -114,7 +149,8 @@ pub fn gen_step(s: &mut Pool2, rng: &mut Rng, ctx: &mut Ctx) -> Step {
                 None
             };
             let receiver = if rng.chance(1, 5) { Some(rng.idx(s.cfg.n_users)) } else { None };
-            Op::Provide { amounts, slippage, receiver, rev: rng.chance(1, 3) }
+            let funds_mode = if rng.chance(1, 12) { rng.range(1, 2) as u8 } else { 0 };
+            Op::Provide { amounts, slippage, receiver, rev: rng.chance(1, 3), funds_mode }
         }
         1 if rng.chance(1, 8) => {
             let coin = rng.idx(4);
@@ -280,21 +316,21 @@ pub fn simplify(step: &Step) -> Vec<Step> {
         v
     };
     match &step.op {
-        Op::Provide { amounts, slippage, receiver, rev } => {
+        Op::Provide { amounts, slippage, receiver, rev, funds_mode } => {
             if receiver.is_some() {
-                push(Op::Provide { amounts: *amounts, slippage: slippage.clone(), receiver: None, rev: *rev }, step.adv, step.fault);
+                push(Op::Provide { amounts: *amounts, slippage: slippage.clone(), receiver: None, rev: *rev, funds_mode: *funds_mode }, step.adv, step.fault);
             }
             if slippage.is_some() {
-                push(Op::Provide { amounts: *amounts, slippage: None, receiver: *receiver, rev: *rev }, step.adv, step.fault);
+                push(Op::Provide { amounts: *amounts, slippage: None, receiver: *receiver, rev: *rev, funds_mode: *funds_mode }, step.adv, step.fault);
             }
             if *rev {
-                push(Op::Provide { amounts: *amounts, slippage: slippage.clone(), receiver: *receiver, rev: false }, step.adv, step.fault);
+                push(Op::Provide { amounts: *amounts, slippage: slippage.clone(), receiver: *receiver, rev: false, funds_mode: *funds_mode }, step.adv, step.fault);
             }
             for a in shr(amounts[0]) {
-                push(Op::Provide { amounts: [a, amounts[1]], slippage: slippage.clone(), receiver: *receiver, rev: *rev }, step.adv, step.fault);
+                push(Op::Provide { amounts: [a, amounts[1]], slippage: slippage.clone(), receiver: *receiver, rev: *rev, funds_mode: *funds_mode }, step.adv, step.fault);
             }
             for a in shr(amounts[1]) {
-                push(Op::Provide { amounts: [amounts[0], a], slippage: slippage.clone(), receiver: *receiver, rev: *rev }, step.adv, step.fault);
+                push(Op::Provide { amounts: [amounts[0], a], slippage: slippage.clone(), receiver: *receiver, rev: *rev, funds_mode: *funds_mode }, step.adv, step.fault);
             }
         }
         Op::Withdraw { lp } => {
